@@ -1,0 +1,47 @@
+//go:build verif
+
+// Hooks and read-only accessors for the verification harness.
+// Only compiled with `-tags verif`; see verif_off.go for the default.
+
+package vm
+
+import (
+	"github.com/skx/evalfilter/v2/code"
+	"github.com/skx/evalfilter/v2/environment"
+	"github.com/skx/evalfilter/v2/object"
+)
+
+// VerifStepHook, when set, is called before every instruction is
+// dispatched - after the context has been polled.  It may block.
+var VerifStepHook func(vm *VM, ip int, op code.Opcode, arg int)
+
+func verifStep(vm *VM, ip int, op code.Opcode, arg int) {
+	if h := VerifStepHook; h != nil {
+		h(vm, ip, op, arg)
+	}
+}
+
+// VerifBytecode returns the bytecode the machine is interpreting right now.
+func (vm *VM) VerifBytecode() code.Instructions { return vm.bytecode }
+
+// VerifFunctions returns the user-defined functions as the machine will run them.
+func (vm *VM) VerifFunctions() map[string]environment.UserFunction { return vm.functions }
+
+// VerifConstants returns the constant pool.
+func (vm *VM) VerifConstants() []object.Object { return vm.constants }
+
+// VerifStackDepth returns the number of values upon the current stack.
+func (vm *VM) VerifStackDepth() int { return vm.stack.Size() }
+
+// VerifStackTop returns the value on top of the current stack, or nil.
+func (vm *VM) VerifStackTop() object.Object {
+	if vm.stack.Empty() {
+		return nil
+	}
+	v, _ := vm.stack.Pop()
+	vm.stack.Push(v)
+	return v
+}
+
+// VerifCalls returns the number of user-defined function calls in progress.
+func (vm *VM) VerifCalls() int { return vm.calls }
